@@ -857,3 +857,56 @@ Proof.
   apply (fill_masked_rows None (fun b a => nth (u0 + a) (nth (v0 + b) sel []) false)
                                (fun b a => nth (u0 + a) (nth (v0 + b) vrows []) None)).
 Qed.
+
+(* ================================================================== GridObject.copy with the centroid mask *)
+(* a child with one value per cell: inside the mask the source value, outside the kind's no-data value *)
+Lemma grid_child_copy_spec fill k m v v' : length m = length v -> grid_child_copy fill k m v = Ok v' ->
+  length v' = length v /\
+  forall i b x, nth_error m i = Some b -> nth_error v i = Some x -> nth_error v' i = Some (if b then x else ndv k).
+Proof.
+  intros L. unfold grid_child_copy. rewrite L, Nat.eqb_refl. simpl.
+  destruct (dkind_eqb k KText && negb fill); [discriminate|]. intros H; injection H as <-.
+  split; [apply fill_masked_length; exact L|]. intros i b x Hm Hx. apply fill_masked_nth; assumption.
+Qed.
+
+(* and it only fails for text data on the pinned code *)
+Lemma grid_child_copy_total k m v : exists v', grid_child_copy true k m v = Ok v'.
+Proof.
+  unfold grid_child_copy. destruct (negb (Nat.eqb (length m) (length v))); [eexists; reflexivity|].
+  rewrite andb_false_r. eexists; reflexivity.
+Qed.
+
+(* the bounding box is attained: the extent is exactly the box of the current locations *)
+Lemma zmin_list_in : forall l x, zmin_list x l = x \/ In (zmin_list x l) l.
+Proof.
+  unfold zmin_list. induction l as [|a r IH]; intros x; simpl; [left; reflexivity|].
+  destruct (IH (Z.min x a)) as [H|H]; [|right; right; exact H].
+  rewrite H. destruct (Z.min_spec x a) as [[_ E]|[_ E]]; rewrite E; [left; reflexivity|right; left; reflexivity].
+Qed.
+
+Lemma zmax_list_in : forall l x, zmax_list x l = x \/ In (zmax_list x l) l.
+Proof.
+  unfold zmax_list. induction l as [|a r IH]; intros x; simpl; [left; reflexivity|].
+  destruct (IH (Z.max x a)) as [H|H]; [|right; right; exact H].
+  rewrite H. destruct (Z.max_spec x a) as [[_ E]|[_ E]]; rewrite E; [right; left; reflexivity|left; reflexivity].
+Qed.
+
+Lemma obj_extent_attained ps lx hx ly hy lz hz : obj_extent ps = Ok [(lx, hx); (ly, hy); (lz, hz)] ->
+  (exists p, In p ps /\ fst (fst p) = lx) /\ (exists p, In p ps /\ fst (fst p) = hx) /\
+  (exists p, In p ps /\ snd (fst p) = ly) /\ (exists p, In p ps /\ snd (fst p) = hy) /\
+  (exists p, In p ps /\ snd p = lz) /\ (exists p, In p ps /\ snd p = hz).
+Proof.
+  destruct ps as [|[[x y] z] r]; [discriminate|]. intros H. injection H as <- <- <- <- <- <-.
+  assert (G : forall (f : pt -> Z) (g : Z -> list Z -> Z) v0, (forall l x, g x l = x \/ In (g x l) l) ->
+              f (x, y, z) = v0 -> exists p, In p ((x, y, z) :: r) /\ f p = g v0 (map f r)).
+  { intros f g v0 Hg Hf. destruct (Hg (map f r) v0) as [E|E].
+    - exists (x, y, z). split; [left; reflexivity|]. rewrite E. exact Hf.
+    - apply in_map_iff in E as [p [E Hp]]. exists p. split; [right; exact Hp|exact E]. }
+  repeat split.
+  - apply (G (fun p => fst (fst p)) zmin_list x zmin_list_in eq_refl).
+  - apply (G (fun p => fst (fst p)) zmax_list x zmax_list_in eq_refl).
+  - apply (G (fun p => snd (fst p)) zmin_list y zmin_list_in eq_refl).
+  - apply (G (fun p => snd (fst p)) zmax_list y zmax_list_in eq_refl).
+  - apply (G (fun p => snd p) zmin_list z zmin_list_in eq_refl).
+  - apply (G (fun p => snd p) zmax_list z zmax_list_in eq_refl).
+Qed.
